@@ -200,6 +200,9 @@ func (c *ClusterInfo) GetLookupdProducers(lookupdHTTPAddrs []string) (Producers,
 			lock.Lock()
 			defer lock.Unlock()
 			for _, producer := range resp.Producers {
+				if producer == nil {
+					continue
+				}
 				key := producer.TCPAddress()
 				p, ok := producersByAddr[key]
 				if !ok {
@@ -267,6 +270,9 @@ func (c *ClusterInfo) GetLookupdTopicProducers(topic string, lookupdHTTPAddrs []
 			lock.Lock()
 			defer lock.Unlock()
 			for _, p := range resp.Producers {
+				if p == nil {
+					continue
+				}
 				for _, pp := range producers {
 					if p.HTTPAddress() == pp.HTTPAddress() {
 						goto skip
